@@ -111,7 +111,7 @@ def part_apply(ctx: fw.Ctx) -> None:
         for q in reqs:
             if q['touch'] and d is not None and q['at'] - t0 < min(max(d, 0), 600000):
                 ctx.fail('the object is touched before the requested delay has elapsed', data, sig='retry-too-soon')
-        if touched and wake is not None and wake < slept:
+        if touched and wake is not None and slept > 0 and max(wake, 0) < slept:   # a zero-length sleep cannot be interrupted
             ctx.fail('touched although new changes arrived during the sleep', data, sig='touch-after-interrupt')
     ctx.differential('apply', HEADER, cases, shard=400)
 
